@@ -16,7 +16,7 @@ import subprocess
 import sys
 
 V = os.path.dirname(os.path.dirname(os.path.abspath(__file__)))
-EXTRA = {'C11-b': ['C05'], 'C03-b': ['C06'], 'C12-b': ['C13'], 'C08-b': ['C05'], 'C16-a': ['C05'], 'C04-e': ['C03'], 'C08-h': ['C04'], 'C09-g': ['C05'], 'C11-h': ['C05']}
+EXTRA = {'C11-b': ['C05'], 'C03-b': ['C06'], 'C12-b': ['C13'], 'C08-b': ['C05'], 'C16-a': ['C05'], 'C04-e': ['C03'], 'C08-h': ['C04'], 'C09-g': ['C05'], 'C11-h': ['C05'], 'C09-i': ['C05']}
 SCR = '/tmp/mw'
 
 
